@@ -288,6 +288,11 @@ fn gen_blk(ch: &mut Chooser, p: &P12, unit: &str, t_units: usize, depth: usize, 
         }
         let ws_at = n_opts; // + whitespace-only line
         n_opts += 1;
+        // + a line whose indentation behind the tag column is written with the *other* blank
+        // character (tabs in a space-indented block and vice versa), one character deeper than
+        // the first inner line: the shift counts characters, whatever they are
+        let mixed_at = n_opts;
+        n_opts += 1;
         let special_base = n_opts;
         if !used_special {
             n_opts += 2; // range ready / pending
@@ -316,6 +321,15 @@ fn gen_blk(ch: &mut Chooser, p: &P12, unit: &str, t_units: usize, depth: usize, 
             inner.push(Inner::Ws {
                 w: unit.repeat(f_units),
             });
+        } else if c == mixed_at {
+            let i = id(ctr);
+            let other = if unit.starts_with(' ') { "\t" } else { " " };
+            let extra = unit.len() * f_units.saturating_sub(t_units) + 1;
+            inner.push(Inner::Line {
+                w: format!("{}{}", unit.repeat(t_units), other.repeat(extra)),
+                text: format!("{i}();"),
+                id: i,
+            });
         } else if c == special_base || c == special_base + 1 {
             used_special = true;
             let i = id(ctr);
@@ -326,7 +340,10 @@ fn gen_blk(ch: &mut Chooser, p: &P12, unit: &str, t_units: usize, depth: usize, 
             });
         } else {
             used_special = true;
-            inner.push(Inner::Unwrap(Box::new(gen_blk(ch, p, unit, f_units, depth + 1, ctr))));
+            // the nested block's tags stand at the first inner line's indentation, or (where that
+            // differs) in the same column as the enclosing block's tags
+            let ct = if f_units != t_units && ch.choose(2) == 1 { t_units } else { f_units };
+            inner.push(Inner::Unwrap(Box::new(gen_blk(ch, p, unit, ct, depth + 1, ctr))));
         }
     }
     // a trailing code line so that the closing wrapper is never adjacent to a nested tag
